@@ -49,7 +49,7 @@ def required_counters(tier):
         "preemptions_injected": 1000,
         "random.schedules": 100,
         "random.switches": 1000,
-        "stress.rounds": 1, "random.schedules_in_copied_contexts": 20, "raw_thread.rounds": 1, "raw_thread.newcomer_threads": 4,
+        "stress.rounds": 1, "random.schedules_in_copied_contexts": 20, "raw_thread.rounds": 1, "pytest_session.runs": 1, "raw_thread.newcomer_threads": 4,
         # (shadow.get_events and windows.* are white-box evidence: they are demanded in run_shard only
         #  when the shadow monitor could attach - a refactored storage module must not make the
         #  black-box arms inconclusive)
@@ -507,6 +507,93 @@ def run_raw_threads(rec, seed, shard, tier):
     drain_shadow(rec, {"raw": True})
 
 
+PYTEST_CONFTEST = '''
+import json, threading
+import numpy as np
+import pytest
+import jaxtyping
+from jaxtyping import Float, PyTree, jaxtyped
+
+GO = threading.Event()
+IN_SCOPE = threading.Event()
+RESULT = {}
+
+def worker():
+    try:
+        with jaxtyped("context"):
+            RESULT["bound"] = bool(isinstance(np.zeros(3, dtype="float32"), Float[np.ndarray, "n"]))
+            RESULT["tree"] = bool(isinstance((1, 2), PyTree[int, "T"]))
+            IN_SCOPE.set()
+            GO.wait(60)
+            RESULT["other_size_rejected"] = not isinstance(np.zeros(4, dtype="float32"), Float[np.ndarray, "n"])
+            RESULT["other_tree_rejected"] = not isinstance((1, (2, 3)), PyTree[int, "T"])
+        RESULT["left_scope"] = "ok"
+    except BaseException as e:
+        RESULT["left_scope"] = type(e).__name__ + ": " + str(e)[:100]
+
+@pytest.fixture(scope="session", autouse=True)
+def background_worker():
+    t = threading.Thread(target=worker)
+    t.start()
+    IN_SCOPE.wait(60)
+    yield
+    GO.set()
+    t.join(60)
+    json.dump(RESULT, open("worker.json", "w"))
+'''
+PYTEST_TESTS = '''
+import numpy as np
+from jaxtyping import Float, jaxtyped
+import typeguard
+
+@jaxtyped(typechecker=typeguard.typechecked)
+def f(x: Float[np.ndarray, "n"]):
+    return 0
+
+def test_one():
+    f(np.zeros(5, dtype="float32"))
+
+def test_two():
+    f(np.zeros(6, dtype="float32"))
+
+def test_three():
+    import conftest
+    conftest.GO.set()
+    f(np.zeros(7, dtype="float32"))
+'''
+
+
+def arm_pytest_session(rec):
+    """a worker thread that is INSIDE a scope while a pytest session (plugin loaded) sets up and runs one test after
+    the other in the main thread: its bindings are still its own when it resumes"""
+    import json
+    import os
+    import shutil
+    import subprocess
+    import sys
+    import tempfile
+
+    d = tempfile.mkdtemp(prefix="jtv_c06_pytest_")
+    try:
+        open(os.path.join(d, "conftest.py"), "w").write(PYTEST_CONFTEST)
+        open(os.path.join(d, "test_session.py"), "w").write(PYTEST_TESTS)
+        env = dict(os.environ)
+        env["PYTHONPATH"] = d + os.pathsep + env.get("PYTHONPATH", "")
+        r = subprocess.run([sys.executable, "-m", "pytest", "-q", "-p", "no:cacheprovider", "test_session.py"], cwd=d, env=env, capture_output=True, text=True, timeout=600)
+        try:
+            out = json.load(open(os.path.join(d, "worker.json")))
+        except Exception:
+            rec.inconclusive.append(f"pytest session arm produced no observation: {(r.stdout + r.stderr)[-300:]}")
+            return
+        rec.count("pytest_session.runs")
+        rec.case(("pytest-session",), True)
+        want = {"bound": True, "tree": True, "other_size_rejected": True, "other_tree_rejected": True, "left_scope": "ok"}
+        if out != want:
+            rec.violation("isolation", {"pytest_session": True, "observed": out}, f"worker thread inside a scope while three tests were set up and run in the main thread: {out}, expected {want}", mechanism="pytest-session-disturbs-worker-thread")
+    finally:
+        shutil.rmtree(d, ignore_errors=True)
+
+
 def measure_windows(rec):
     """evidence: confirm that the catalogued operations really open the windows that
     matter (flatten flag True / '?' label set / context open / rollback) while traced."""
@@ -555,6 +642,8 @@ def run_shard(rec, seed, shard, tier):
         run_stress(rec, seed, shard, tier)
     if shard["i"] in (3, 4):
         run_raw_threads(rec, seed, shard, tier)
+    if shard["i"] == 5:
+        arm_pytest_session(rec)
     rec.count("shadow.get_events", shadowstore.counters["get_shape"] + shadowstore.counters["get_flat"] + shadowstore.counters["get_path"])
     if att and shadowstore.counters["get_shape"] == 0:
         rec.inconclusive.append("shadow store attached but saw no get_shape_memo event")
